@@ -1874,13 +1874,15 @@ impl ReManager {
             BaseRegLan::Epsilon => false,
             BaseRegLan::Range(set) => set.contains(c),
             BaseRegLan::Concat(e1, e2) => {
-                self.start_char(e1, c) || e1.nullable && self.start_char(e2, c)
+                // a string of e1 that starts with c must be followed by a string of e2
+                (self.start_char(e1, c) && !self.is_empty_re(e2))
+                    || (e1.nullable && self.start_char(e2, c))
             }
             BaseRegLan::Loop(e, _) => self.start_char(e, c),
-            BaseRegLan::Inter(args) => args.iter().all(|x| self.start_char(x, c)),
             BaseRegLan::Union(args) => args.iter().any(|x| self.start_char(x, c)),
-            BaseRegLan::Complement(_) => {
-                // expensive case
+            BaseRegLan::Inter(_) | BaseRegLan::Complement(_) => {
+                // expensive cases: the operands of an intersection may each start
+                // with c without having a common string that does
                 let d = self.deriv(e, c);
                 !self.is_empty_re(d)
             }
